@@ -55,7 +55,16 @@ static inline void load_load_barrier() {
 #endif
 }
 
+#ifdef LIBFIBER_VERIF
+/* a spin-wait iteration: lets the checker's scheduler run the thread that is
+ * being waited for */
+extern void verif_relax(void);
+#endif
+
 static inline void cpu_relax() {
+#ifdef LIBFIBER_VERIF
+  verif_relax();
+#endif
 #if defined(__i386__) || defined(__x86_64__)
   __asm__ __volatile__("pause" : : : "memory");
 #else
